@@ -85,15 +85,17 @@ VarsUnder(s, k) ==
   ELSE Vars(k)
 
 \* the representative continuation used below the level of full expansion
-RepKind(s) ==
-  LET l == Last(s) IN
+RepPref(l) ==
   CASE l.k = "eth" -> "arp"   [] l.k = "vlan" -> "ip4"  [] l.k = "ip4" -> "udp"
     [] l.k = "ip6" -> "udp"   [] l.k = "icmp" -> "echo" [] l.k = "icmp6" -> "echo6"
     [] l.k = "gre" -> "ip4"   [] l.k = "vxlan" -> "eth" [] l.k \in {"unreach", "timex"} -> "ip4"
-    [] l.k = "unreach6" -> "ip6"
-    [] l = L("llc", "snap0") -> "ip4" [] l = L("mpls", "nobos") -> "mpls"
-    [] l = L("eapol", "eap") -> "eap"
+    [] l.k = "unreach6" -> "ip6" [] l.k = "llc" -> "ip4" [] l.k = "mpls" -> "mpls"
+    [] l.k = "eapol" -> "eap"
     [] OTHER -> "raw"
+RepKind(s) ==
+  LET c == ChildKinds(s) IN
+  IF RepPref(Last(s)) \in c THEN RepPref(Last(s))
+  ELSE IF "raw" \in c THEN "raw" ELSE CHOOSE x \in c : TRUE
 RepVar(s, k) == IF k = "udp" /\ Last(s) = L("ip4", "orig") THEN "orig" ELSE Prim(k)
 
 (* Expansion levels bound the corpus: 3 = every child kind x every variant,  *)
